@@ -4,7 +4,6 @@ package sqlmerge
 
 import (
 	"fmt"
-	"time"
 	"strings"
 	"testing"
 
@@ -30,7 +29,6 @@ func TestVerif_C29(t *testing.T) {
 	vh.Check(t, "merge", 300, 1200, func(rt *rapid.T) {
 		c29Case(rt, env, rec)
 	})
-	fmt.Println("PHASES", phaseT)
 }
 
 var c29Assumptions = []string{
@@ -179,9 +177,8 @@ func c29Case(rt *rapid.T, env *mEnv, rec *vh.Recorder) {
 	mode := mergeMode(rapid.IntRange(0, 1).Draw(rt, "mode"))
 
 	c := env.newCase(rt)
-	defer func() { t0 := time.Now(); c.close(); phase("close", t0) }()
+	defer c.close()
 	se := c.se
-	tph := time.Now()
 	c.checkoutNew(rt, "base", "")
 	c.run(rt, sp.create("t"))
 	for _, st := range baseStmts {
@@ -193,8 +190,6 @@ func c29Case(rt *rapid.T, env *mEnv, rec *vh.Recorder) {
 	opo := mOpOpts{keyMax: sp.KeyMax, maxRange: 2, wInsert: 3, wUpdate: 6, wDelete: 2}
 	tables := []string{"t"}
 
-	phase("base", tph)
-	tph = time.Now()
 	// optional one-sided schema change
 	var sc *mSchemaChange
 	oursChanged := false
@@ -220,9 +215,6 @@ func c29Case(rt *rapid.T, env *mEnv, rec *vh.Recorder) {
 	c.checkoutNew(rt, "b2", "base")
 	mRunHistory(rt, c, "theirs", []*mTrack{{side: theirs, tables: tables, op: opo, hook: hookTheirs}}, hop)
 
-	phase("hist", tph)
-	tph = time.Now()
-	defer func() { phase("merges", tph) }()
 	merged := ours
 	if sc != nil && !oursChanged {
 		merged = theirs
@@ -419,7 +411,3 @@ func c29CheckSwap(rt *rapid.T, rows1, rows2, crow1, crow2 []string, conf []vsql.
 		rt.Fatalf("conflicts of the swapped merge are not mirrored\n b2 into b1: %s\n mirrored b1 into b2: %s", vsql.Show(crow1), vsql.Show(mir))
 	}
 }
-
-var phaseT = map[string]time.Duration{}
-
-func phase(name string, t0 time.Time) { phaseT[name] += time.Since(t0) }
